@@ -1460,6 +1460,8 @@ def check_C06(A, R, tier):
     # functions behind the summary treat 'not needed, but an Always consumer' as an internal error
     from rules_more import rule_needed_flag_decides
     rule_needed_flag_decides(A, R, "R6.12")
+    from rules_c04 import rule_summary_wrappers_transparent
+    rule_summary_wrappers_transparent(A, R, "R6.12")
     # F7 is owned by C07 (R7.5); reference only
     R.explanation = ("Necessary conditions, each over all paths: state writes keep the kind (the kind-change panic is dead); explicit panics "
                      "outside the public API's argument checks are unreachable in the abstraction; every unwrap outside those checks is "
